@@ -353,7 +353,46 @@ def m_format(it, x, spec=""):
     return it.format_value(x, None, spec)
 
 
+def m_vformat(it, obj, template, args=(), kwargs=None):
+    """string.Formatter.vformat for an interpreted subclass: the look-ups and format_field / convert_field go through the interpreter
+    (the subclass's own overrides are called), the parsing of the template is the standard library's."""
+    kwargs = {} if kwargs is None else kwargs
+    from ..values import PFunc, PBound
+
+    class ObjFormatter(EngFormatter):
+        def get_value(self_, key, a_, k_):
+            f = obj.cls.find("get_value")
+            if isinstance(f, PFunc):
+                return it.call(PBound(f, obj), [key, list(a_), kwargs], {})
+            if isinstance(key, int):
+                return list(args)[key]
+            return it.getitem(kwargs, key)
+
+        def convert_field(self_, value, conversion):
+            f = obj.cls.find("convert_field")
+            if isinstance(f, PFunc):
+                return it.call(PBound(f, obj), [value, conversion], {})
+            return EngFormatter.convert_field(self_, value, conversion)
+
+        def format_field(self_, value, spec):
+            f = obj.cls.find("format_field")
+            if isinstance(f, PFunc):
+                r = it.call(PBound(f, obj), [value, spec], {})
+                if isinstance(r, SStr):
+                    self_.symbolic = True
+                    self_.parts_sym.append(r)
+                    return "\x00SYM%d\x00" % (len(self_.parts_sym) - 1)
+                return it.unbase(r)
+            return EngFormatter.format_field(self_, value, spec)
+
+    if not isinstance(it.unbase(template), str):
+        raise Unsupported("vformat of a symbolic template")
+    return ObjFormatter(it).run(it.unbase(template), tuple(args), {})
+
+
 def install(it):
+    it.native_method_models[(_string.Formatter, "vformat")] = m_vformat
+    it.native_method_models[(_string.Formatter, "format")] = lambda it_, obj, template, *a, **k: m_vformat(it_, obj, template, a, k)
     it.models[str] = m_str
     it.models[repr] = m_repr
     it.models[format] = m_format
